@@ -27,7 +27,8 @@ RULE = ("Hypothesis-generated version-2 certificates from freshly built P-256 X.
         "with both report_data bindings, with 0..2 corruptions (any byte of any message / "
         "signature / key / auth data / custom data, signature by another key, re-keyed "
         "attestation key, re-parenting, expired / not-yet-valid certificates, P-384 or secp256k1 "
-        "keys in the chain, wrong root, swapped certificates); non-trivial = a corruption or a "
+        "keys in the chain, wrong root, root bundled in the file, swapped certificates); the loaded "
+        "object is validated 1..4 times (same root again / an unrelated root); non-trivial = a corruption or a "
         "non-default window; distinct by case fingerprint")
 ASSUMPTIONS = [
     "validity by construction (each corruption breaks a known element); uncorrupted chains are "
